@@ -327,6 +327,22 @@ func c14Remove(res *engine.Result, payload []byte, sec *ref.PMTSection, pmtPID i
 	if n > 0 {
 		lists = append(lists, [][]int{{pids[0], pids[0]}}, [][]int{{pids[n-1]}, {pids[n-1]}})
 	}
+	// lists at least as LONG as the stream list that do not cover it: one stream (or none) plus absent PIDs
+	// (one list of unwanted PIDs applied to the tables of several programs), one stream repeated
+	for extra := 0; extra <= 1; extra++ {
+		var abs, rep, mix []int
+		for i := 0; i < n+extra; i++ {
+			abs = append(abs, 0x1E00+i)
+		}
+		if n > 0 {
+			mix = append([]int{pids[n-1]}, abs[:n-1+extra]...)
+			for i := 0; i < n+extra; i++ {
+				rep = append(rep, pids[0])
+			}
+			lists = append(lists, [][]int{mix}, [][]int{rep})
+		}
+		lists = append(lists, [][]int{abs})
+	}
 	for _, calls := range lists {
 		var pmt psi.PMT
 		var err error
@@ -769,7 +785,7 @@ func init() {
 		Scenarios: []engine.ScenarioRunner{
 			&engine.Tree{
 				Name: "filter",
-				Rule: "choice tree over the logical section of C06 (version, current_next, program number/PCR PID, 0..2 program descriptors, 0..4 streams with type, distinct PID, 0..2 descriptors of a 9-entry menu, reserved bits ones/zeros) and the carrier (pointer_field {0,1,5,100} with filler, 0..3 trailing stuffing bytes, 3 PMT PIDs, last packet padded/shortened, second packet full/1/2/100 bytes, priority+PCR adaptation fields); EVERY execution: RemoveElementaryStreams for every subset of the stream PIDs (original and reversed order, plus an absent PID, duplicates, two consecutive calls) then ElementaryStreams/Pids/PIDExists; and FilterPMTPacketsToPids for every first-packet payload size 1..184 x every request list (every subset of the stream PIDs in original and reversed order, subsets plus one absent PID, only absent PIDs, duplicated PIDs, PAT PID, PMT PID, mixtures, the empty list): returned packets (headers, payload = pointer bytes + reference-filtered section + 0xFF), error contract, inputs unchanged; non-trivial = executions with at least one non-default choice",
+				Rule: "choice tree over the logical section of C06 (version, current_next, program number/PCR PID, 0..2 program descriptors, 0..4 streams with type, distinct PID, 0..2 descriptors of a 9-entry menu, reserved bits ones/zeros) and the carrier (pointer_field {0,1,5,100} with filler, 0..3 trailing stuffing bytes, 3 PMT PIDs, last packet padded/shortened, second packet full/1/2/100 bytes, priority+PCR adaptation fields); EVERY execution: RemoveElementaryStreams for every subset of the stream PIDs (original and reversed order, plus an absent PID, duplicates, two consecutive calls, lists as long as / longer than the stream list made of absent PIDs, one stream plus absent PIDs, one stream repeated) then ElementaryStreams/Pids/PIDExists; and FilterPMTPacketsToPids for every first-packet payload size 1..184 x every request list (every subset of the stream PIDs in original and reversed order, subsets plus one absent PID, only absent PIDs, duplicated PIDs, PAT PID, PMT PID, mixtures, the empty list): returned packets (headers, payload = pointer bytes + reference-filtered section + 0xFF), error contract, inputs unchanged; non-trivial = executions with at least one non-default choice",
 				Bound: func(r *engine.Run) int {
 					if r.Thorough() {
 						return 4
